@@ -11,6 +11,7 @@ RULE = (
     "sat; when a VALID candidate exists the public solve() must not return False. Non-trivial = VALID candidate of a problem "
     "that has a user constraint or shared resource and that also has INVALID candidates; distinct by SHA-1 of (spec, candidate)."
 )
+TECHNIQUE = "reference-side candidate schedules (exhaustive candidate box, neighbours, constructed random ones); every reference-VALID one pinned and submitted to the encoder (completeness differential)"
 ASSUMPTIONS = [
     "z3 answers trusted; 'unknown' is inconclusive",
     "a candidate is submitted only if every reference rule holds under its strictest reading (vf/ref.py), so documentation ambiguities cannot raise an alarm",
